@@ -370,13 +370,18 @@ impl<F: Write + Seek> Directory<F> {
                 let mut sector =
                     self.seek_within_dir_entry(predecessor_parent_id, 72)?;
                 sector.write_le_u32(predecessor_left)?;
+                self.paint_black(predecessor_left)?;
                 self.dir_entry_mut(predecessor_id).left_sibling = left_sibling;
             }
             self.dir_entry_mut(predecessor_id).right_sibling = right_sibling;
             self.write_dir_entry(predecessor_id)?;
             predecessor_id
         };
-        // TODO: recolor nodes
+        // We don't rebalance the tree (nor does insertion), but an entry that
+        // moves up must not end up as a red child of a red parent, which the
+        // spec forbids and strict validation rejects.  Black is always safe.
+        // TODO: proper red-black rebalancing
+        self.paint_black(replacement_id)?;
 
         // Remove the entry.
         debug_assert_eq!(stream_ids.last(), Some(&stream_id));
@@ -401,6 +406,18 @@ impl<F: Write + Seek> Directory<F> {
             sector.write_le_u32(replacement_id)?;
         }
         self.free_dir_entry(stream_id)?;
+        Ok(())
+    }
+
+    /// Colors the given entry (if any) black.
+    fn paint_black(&mut self, stream_id: u32) -> io::Result<()> {
+        if stream_id != consts::NO_STREAM
+            && self.dir_entry(stream_id).color != Color::Black
+        {
+            self.dir_entry_mut(stream_id).color = Color::Black;
+            let mut sector = self.seek_within_dir_entry(stream_id, 67)?;
+            sector.write_all(&[Color::Black.as_byte()])?;
+        }
         Ok(())
     }
 
